@@ -1486,6 +1486,9 @@ impl DnsOutPacket {
 
         if self.size() > MAX_MSG_ABSOLUTE {
             self.data.truncate(start_size);
+            // Forget the names written by this record: their offsets are gone.
+            self.names
+                .retain(|_, offset| usize::from(*offset) < start_size);
             self.state = PacketState::Finished;
             return false;
         }
